@@ -9,6 +9,17 @@
 import itertools
 
 
+def _reserve_count(counted_class, count):
+    """Make sure that ``count`` is not handed out by the counter of ``counted_class`` later.
+
+    A count that is given explicitly (``eval(repr(.))``, unpickling an object
+    of another process) must stay unique in this process, as is done for
+    explicitly given ufl_ids.
+    """
+    upcoming = next(counted_class._counter)
+    counted_class._counter = itertools.count(max(upcoming, count + 1))
+
+
 class Counted:
     """Mixin class for globally counted objects."""
 
@@ -33,8 +44,22 @@ class Counted:
         if counted_class._counter is None:
             counted_class._counter = itertools.count()
 
-        self._count = count if count is not None else next(counted_class._counter)
+        if count is None:
+            count = next(counted_class._counter)
+        else:
+            _reserve_count(counted_class, count)
+        self._count = count
         self._counted_class = counted_class
+
+    def __setstate__(self, state):
+        """Restore the state of an unpickled object and reserve its count."""
+        # pickle creates the object with __new__ and does not call __init__
+        for attributes in state if isinstance(state, tuple) else (state,):
+            for name, value in (attributes or {}).items():
+                setattr(self, name, value)
+        if self._counted_class._counter is None:
+            self._counted_class._counter = itertools.count()
+        _reserve_count(self._counted_class, self._count)
 
     def count(self):
         """Get count."""
